@@ -882,7 +882,12 @@ def ref_decodable(c, b):
         y = int.from_bytes(b[1:], "big")
         if y >= c.p:
             return None
-        if E.lift_y(y) is None:
+        L = E.lift_y(y)
+        if L is None:
+            return None
+        if L[0] == 0 and (y == 1 or b[0] == 3):
+            # canonical form (shared with C07's codec reference): the neutral element is written as the single byte 0
+            # only, and x = 0 has no odd representative, so the sign bit must be clear for (0, -1)
             return None
         return ("y", y)
     if len(b) == 2 * fb + 1:
@@ -892,6 +897,8 @@ def ref_decodable(c, b):
         x = int.from_bytes(b[fb + 1:], "big")
         if x >= c.p or y >= c.p or not E.on_curve((x, y)):
             return None
+        if x == 0 and y == 1:
+            return None                   # the encoder never emits a long form of the neutral element
         return ("point", (x, y))
     return None
 
